@@ -151,6 +151,16 @@ NC_reset_maxopenfiles(int req_max)
         /* The requested max can be less than the current max */
         alloc_size = req_max;
 
+    /* An open file is identified by its position in the list (that position is part of every id the
+       application holds), so the new list must still reach the highest position in use. */
+    for (old_idx = _cdfs_size - 1; old_idx >= 0 && _cdfs[old_idx] == NULL; old_idx--)
+        ;
+    if (alloc_size <= old_idx) {
+        NCadvise(NC_EINVAL, "Request max %d does not reach the open file at position %d.  Keep current size.",
+                 req_max, old_idx);
+        HGOTO_DONE(_cdfs_size);
+    }
+
     /* Allocate a new list */
     newlist = malloc(sizeof(NC *) * (size_t)alloc_size);
 
@@ -166,12 +176,13 @@ NC_reset_maxopenfiles(int req_max)
     for (i = 0; i < alloc_size; i++)
         newlist[i] = NULL;
 
-    /* Transfer all non-NULL pointers over to the new list and deallocate the
+    /* Transfer the pointers over to the new list, each at its own position, and deallocate the
        old list of pointers */
-    for (old_idx = 0, new_idx = 0; old_idx < _cdfs_size && new_idx < alloc_size; old_idx++)
-        if (_cdfs[old_idx] != NULL)
-            newlist[new_idx++] = _cdfs[old_idx];
+    for (new_idx = 0; new_idx < _cdfs_size && new_idx < alloc_size; new_idx++)
+        newlist[new_idx] = _cdfs[new_idx];
     free(_cdfs);
+    if (_ncdf > alloc_size)
+        _ncdf = alloc_size;
 
     /* Set _cdfs to the new list */
     _cdfs   = newlist;
